@@ -232,6 +232,13 @@ func (c *Ctx) fieldPathRaw(e ast.Expr) string {
 		if t == nil {
 			return ""
 		}
+		// a parameter of unnamed type (an array pointer, a counter) that every caller binds to the same field
+		// of the same struct is that field: lookupField(&vm.blockStack, vm.blockTos, name)
+		if _, named := derefType(t).(*types.Named); !named {
+			if fp := c.constArgPath(e); fp != "" {
+				return fp
+			}
+		}
 		return "<" + typeShort(t) + ">"
 	case *ast.SelectorExpr:
 		base := c.fieldPathRaw(e.X)
@@ -396,4 +403,85 @@ func (c *Ctx) unfoldTrivial(e ast.Expr) ast.Expr {
 		e = rs.Results[0]
 	}
 	return e
+}
+
+// constArgPath: id is a parameter of a module function all of whose call sites pass, at that position, an expression
+// with one and the same field path; that path is returned ("" otherwise).
+func (c *Ctx) constArgPath(id *ast.Ident) string {
+	v, ok := c.objOf(id).(*types.Var)
+	if !ok || v.IsField() || v.Pkg() == nil || v.Parent() == nil || v.Parent() == v.Pkg().Scope() {
+		return ""
+	}
+	if c.memoTab == nil {
+		c.memoTab = map[string]any{}
+	}
+	cache, _ := c.memoTab["constArgPath"].(map[*types.Var]string)
+	if cache == nil {
+		cache = map[*types.Var]string{}
+		c.memoTab["constArgPath"] = cache
+	}
+	if fp, done := cache[v]; done {
+		return fp
+	}
+	cache[v] = "" // while computing
+	// the declaring function and the parameter's position
+	var owner *types.Func
+	idx := -1
+	for _, it := range c.sortedDecls() {
+		fd := it.fd
+		if fd.Type.Params == nil || v.Pos() < fd.Pos() || v.Pos() > fd.End() {
+			continue
+		}
+		k := 0
+		for _, f := range fd.Type.Params.List {
+			for _, n := range f.Names {
+				if c.infoFor(n).Defs[n] == types.Object(v) {
+					owner, _ = it.obj.(*types.Func)
+					idx = k
+				}
+				k++
+			}
+			if len(f.Names) == 0 {
+				k++
+			}
+		}
+	}
+	if owner == nil || idx < 0 {
+		return ""
+	}
+	path, n := "", 0
+	for _, it := range c.sortedDecls() {
+		if it.fd.Body == nil {
+			continue
+		}
+		bad := false
+		walkCalls(it.fd.Body, false, func(call *ast.CallExpr) {
+			if c.callee(call) != types.Object(owner) || idx >= len(call.Args) {
+				return
+			}
+			a := stripParens(call.Args[idx])
+			if ue, isU := a.(*ast.UnaryExpr); isU && ue.Op == token.AND {
+				a = ue.X
+			}
+			fp := c.fieldPathRaw(a)
+			if _, isSel := stripParens(a).(*ast.SelectorExpr); !isSel || fp == "" {
+				bad = true
+				return
+			}
+			n++
+			if path == "" {
+				path = fp
+			} else if path != fp {
+				bad = true
+			}
+		})
+		if bad {
+			return ""
+		}
+	}
+	if n == 0 {
+		return ""
+	}
+	cache[v] = path
+	return path
 }
